@@ -13,6 +13,7 @@ import (
 	"net/url"
 	"sync"
 	"sync/atomic"
+	"testing/synctest"
 	"time"
 
 	"github.com/prometheus/client_golang/prometheus"
@@ -41,6 +42,10 @@ type StackOpts struct {
 	// EndByDeadline: Stack.Cancel ends the server's context the way a deadline does (Err() == context.DeadlineExceeded)
 	// instead of by cancellation - a library caller's context.WithTimeout
 	EndByDeadline bool
+	// Warm: before NewStack returns, one HTTP/1.1 and one HTTP/2 client are served and gone. Whatever a server starts
+	// lazily with its first connection and keeps for its own lifetime (a statistics goroutine, a pool) then exists
+	// before a check takes its baseline: a goroutine census is to find what a CONNECTION leaves behind.
+	Warm bool
 }
 
 // deadlineCtx is a context whose end the harness decides and whose error is context.DeadlineExceeded.
@@ -161,6 +166,28 @@ func NewStack(o StackOpts) *Stack {
 	}
 	if !o.NoServe {
 		s.StartServe()
+		if o.Warm {
+			synctest.Wait()
+			for _, alpn := range []string{"http/1.1", "h2"} {
+				c := s.Connect("warmup-"+alpn, nil, Hello{Name: "warmup-" + alpn, ALPN: []string{alpn}, SNI: "localhost"})
+				synctest.Wait()
+				if done, err := c.Handshake(); done && err == nil {
+					if alpn == "h2" {
+						c.StartH2()
+						c.SendH2(1, Req{Path: "/warmup", Host: "localhost"})
+					} else {
+						c.SendH1(Req{Path: "/warmup", Host: "localhost"})
+					}
+					synctest.Wait()
+				}
+				c.Close()
+				synctest.Wait()
+			}
+			// the server's own timers for these two connections (HTTP/2 close delay, idle timers) run out
+			time.Sleep(5 * time.Second)
+			synctest.Wait()
+			s.Backend.Forget() // the check's own counts start at zero
+		}
 	}
 	return s
 }
